@@ -336,6 +336,9 @@ impl Engine {
     }
 
     fn emit(&mut self, obs: &mut Vec<u64>, code: u64, ret: &[u64], out: &mut Out) {
+        for (t, a) in take_misaligned() {
+            out.flag(format!("C04: a component of type {t} was dropped in place at the misaligned address {a:#x}"));
+        }
         let d = sorted_drops();
         self.ledger.dropped(&d, &self.sizes.clone(), out);
         obs.push(code);
@@ -899,6 +902,7 @@ impl Engine {
                 let p = a.ids().as_ptr() as usize;
                 let cap = crate::alloc_track::block_of(p, 4).map_or(0, |(s, sz)| if s == p { sz / 4 } else { 0 });
                 obs.push(cap as u64);
+                let mut bases: Vec<(usize, u64)> = Vec::new();
                 if (a.len() as usize) > cap {
                     out.flag(format!("C04: archetype holds {} entities but its id array has room for {cap}", a.len()));
                 }
@@ -907,17 +911,21 @@ impl Engine {
                         if let Some(col) = a.get::<&C>() {
                             let size = std::mem::size_of::<C>();
                             let align = std::mem::align_of::<C>();
-                            let base = col.as_ptr() as usize;
+                            let base = std::hint::black_box(col.as_ptr() as usize);
                             if base % align != 0 {
                                 out.flag(format!("C04: column of type {t} starts at misaligned address {base:#x}"));
                             }
                             for (i, c) in col.iter().enumerate() {
-                                let addr = c as *const C as usize;
+                                let addr = std::hint::black_box(c as *const C as usize);
                                 if addr != base + i * size {
                                     out.flag(format!("C04: row {i} of column {t} is not at base + i * size"));
                                 }
                             }
                             if size > 0 && !col.is_empty() {
+                                if let Some((_, t2)) = bases.iter().find(|(b, _)| *b == base) {
+                                    out.flag(format!("C04: columns {t2} and {t} share the base address {base:#x}"));
+                                }
+                                bases.push((base, t));
                                 match crate::alloc_track::block_of(base, size * col.len()) {
                                     None => out.flag(format!("C04: column of type {t} ({} rows) does not lie inside one live allocation", col.len())),
                                     Some((s, sz)) => {
